@@ -184,7 +184,7 @@ class Run:
         return "clean"
 
     def _conflicting_pins(self):
-        from req_compile.utils import is_pinned_requirement
+        from rv.common import pins_exactly as is_pinned_requirement
         _, cons = containers(self.case)
         if not cons or not all(is_pinned_requirement(q) for c in cons for q in c.reqs):
             return False
@@ -219,7 +219,7 @@ class Run:
 
 
 def model_request(case, r):
-    from req_compile.utils import is_pinned_requirement
+    from rv.common import pins_exactly as is_pinned_requirement
     enc, ne = enc_for(case)
     ins, cons = containers(case)
     from req_compile.containers import DistInfo
@@ -297,7 +297,7 @@ class Solution:
         """least set of (key -> requested extras) closed under applicable requirements at the final pins.
         With `extras_of` the extras requested of each distribution are given (those requested "by anyone in
         the solve") instead of being accumulated along the walk."""
-        from req_compile.containers import req_uses_extra
+        from rv.common import applies_under as req_uses_extra
         if extras_of is not None:
             seen = set()
             edges = []
